@@ -20,6 +20,7 @@ import (
 	"runtime"
 	"sort"
 	"sync"
+	"time"
 	"unsafe"
 )
 
@@ -52,11 +53,12 @@ const (
 	KCondWait
 	KCondSignal
 	KCondBroadcast
+	KTimer
 )
 
 var kindNames = [...]string{"none", "start", "spawn", "send", "sent", "recv", "recvd", "close", "closed",
 	"lock", "unlock", "rlock", "runlock", "maprange", "select", "selected", "sync", "synced",
-	"call", "ret", "exit", "user", "condwait", "signal", "broadcast"}
+	"call", "ret", "exit", "user", "condwait", "signal", "broadcast", "timer"}
 
 func (k Kind) String() string {
 	if int(k) < len(kindNames) {
@@ -528,6 +530,78 @@ func LockerUnlock(l sync.Locker, site int32) {
 		l.Unlock()
 		park(KSyncPost, site, 0, 0)
 	}
+}
+
+// ---- timers ----
+//
+// The scheduler is told about every timer channel and its deadline on the
+// bubble's fake clock, so a receive (or select clause) on a timer channel is
+// ready exactly when fake time has reached the deadline — timer channels
+// report len == cap == 0 since Go 1.23, the channel itself tells nothing.
+// Arg carries the deadline as UnixNano; Arg == 0 disarms; Site2 (in Addr of
+// the Msg's Ch) the period for tickers.
+
+func timerMsg(ch any, deadline time.Time, period time.Duration, site int32) {
+	if cur == nil {
+		return
+	}
+	var arg uint64
+	if !deadline.IsZero() {
+		arg = uint64(deadline.UnixNano())
+	}
+	parkMsg(Msg{Kind: KTimer, Site: site, Addr: addrOf(ch), Arg: arg, Ch: ch, NCases: int(period)})
+}
+
+func TimeAfter(d time.Duration, site int32) <-chan time.Time {
+	ch := time.After(d)
+	timerMsg(ch, time.Now().Add(d), 0, site)
+	return ch
+}
+
+func NewTimer(d time.Duration, site int32) *time.Timer {
+	t := time.NewTimer(d)
+	timerMsg(t.C, time.Now().Add(d), 0, site)
+	return t
+}
+
+func TimerReset(t *time.Timer, d time.Duration, site int32) bool {
+	r := t.Reset(d)
+	if t.C != nil {
+		timerMsg(t.C, time.Now().Add(d), 0, site)
+	}
+	return r
+}
+
+func TimerStop(t *time.Timer, site int32) bool {
+	r := t.Stop()
+	if t.C != nil {
+		timerMsg(t.C, time.Time{}, 0, site)
+	}
+	return r
+}
+
+func NewTicker(d time.Duration, site int32) *time.Ticker {
+	t := time.NewTicker(d)
+	timerMsg(t.C, time.Now().Add(d), d, site)
+	return t
+}
+
+func TimeTick(d time.Duration, site int32) <-chan time.Time {
+	ch := time.Tick(d)
+	if ch != nil {
+		timerMsg(ch, time.Now().Add(d), d, site)
+	}
+	return ch
+}
+
+func TickerStop(t *time.Ticker, site int32) {
+	t.Stop()
+	timerMsg(t.C, time.Time{}, 0, site)
+}
+
+func TickerReset(t *time.Ticker, d time.Duration, site int32) {
+	t.Reset(d)
+	timerMsg(t.C, time.Now().Add(d), d, site)
 }
 
 // Gosched is runtime.Gosched as a scheduling point.
